@@ -184,6 +184,51 @@ func VRefEncode(m *IKEMessage, lib bool, perm int) []byte {
 	return VAssemble(m.IKEHeader, items)
 }
 
+// VRefEncodeChain returns the type of the first payload and the chain octets (no header).
+func VRefEncodeChain(ps IKEPayloadContainer, lib bool, perm int) (uint8, []byte) {
+	var chain []byte
+	for i, p := range ps {
+		next := uint8(0)
+		if i+1 < len(ps) {
+			next = uint8(ps[i+1].Type())
+		}
+		body := VRefBody(p, lib, perm)
+		l := 4 + len(body)
+		chain = append(chain, next, vRes(lib), uint8(l>>8), uint8(l))
+		chain = append(chain, body...)
+	}
+	first := uint8(0)
+	if len(ps) > 0 {
+		first = uint8(ps[0].Type())
+	}
+	return first, chain
+}
+
+// VRefParseChain is the strict parser of a payload chain starting with payload type next.
+func VRefParseChain(next uint8, r []byte) (IKEPayloadContainer, bool) {
+	var out IKEPayloadContainer
+	for len(r) > 0 {
+		if len(r) < 4 || next == 0 {
+			return nil, false
+		}
+		l := vGet16(r, 2)
+		if l < 4 || l > len(r) || r[1] != 0 {
+			return nil, false
+		}
+		p, ok := VRefParseBody(next, r[4:l])
+		if !ok {
+			return nil, false
+		}
+		out = append(out, p)
+		next = r[0]
+		r = r[l:]
+	}
+	if next != 0 {
+		return nil, false
+	}
+	return out, true
+}
+
 // ---- strict parser ----------------------------------------------------------------------------
 
 func vGet16(b []byte, o int) int { return int(b[o])<<8 | int(b[o+1]) }
@@ -436,4 +481,26 @@ func VRefParse(b []byte) (*IKEMessage, bool) {
 		return nil, false
 	}
 	return m, true
+}
+
+// VRefParseHeaderOnly reads the 28 header octets with the reference offsets.
+func VRefParseHeaderOnly(b []byte) (*IKEHeader, bool) {
+	if len(b) < 28 {
+		return nil, false
+	}
+	h := &IKEHeader{MajorVersion: b[17] >> 4, MinorVersion: b[17] & 0x0f, ExchangeType: b[18], Flags: b[19]}
+	for i := 0; i < 8; i++ {
+		h.InitiatorSPI = h.InitiatorSPI<<8 | uint64(b[i])
+		h.ResponderSPI = h.ResponderSPI<<8 | uint64(b[8+i])
+	}
+	h.MessageID = uint32(b[20])<<24 | uint32(b[21])<<16 | uint32(b[22])<<8 | uint32(b[23])
+	return h, true
+}
+
+// VAssembleFirst assembles header + one payload whose own next-payload field is given explicitly
+// (the Encrypted payload names the first inner payload there).
+func VAssembleFirst(h *IKEHeader, it VItem, next uint8) []byte {
+	b := VAssemble(h, []VItem{it})
+	b[28] = next
+	return b
 }
